@@ -137,3 +137,35 @@ Example C09_repetition_unconditional_nonvacuous :
   exists t r, build e = BuildOk t r /\ required_reps t = true /\ rep_class t = true /\ shz t = true /\
     is_exhaustive t = Ok Always /\ may_end_sep t = false.
 Proof. cbv zeta. do 2 eexists. repeat split; vm_compute; reflexivity. Qed.
+
+From WaxProofs Require Import ExhaustOptFacts.
+
+(* inside the known class optional_repetition: a repetition that may be written out zero times is harmless when it is bounded above and
+   its body holds no tree wildcard (`<a:0,2>/**`, `x<a/:0,2>b/**`, `<[0-9]:0,3>*/**/*`) - no member of its term is unbounded
+   (`C09_terms_of_tree_free_tokens_promise_nothing`), so it promises nothing whether it is written out or not.  What the known class
+   keeps is the optional repetition whose own term is unbounded (`<a/**:0,1>*`).  Per expansion that respects the adjacency rules: with
+   optional repetitions the rules do not hold of every expansion (`a/<b:0,>/c` expands to `a//c`) *)
+Theorem C09_built_globs_with_plain_repetitions_always_sound : forall orbit e t r p z x,
+  build e = BuildOk t r -> plain_reps t = true -> is_exhaustive t = Ok Always -> nosep z = true ->
+  Expands t x -> chain_ok false x = true -> zchain false x = true -> last_opt x <> Some LSep ->
+  FlatMatch orbit true true x p -> FlatMatch orbit true true x (p ++ SEP :: z).
+Proof. exact built_plain_reps_always_sound. Qed.
+Print Assumptions C09_built_globs_with_plain_repetitions_always_sound.
+
+Theorem C09_terms_of_tree_free_tokens_promise_nothing : forall t, frq t = true -> tree_free t = true ->
+  AlgebraClosure.safe (AlgebraClosure.opt_ok btn) (exh_fold t).
+Proof. exact tf_fold. Qed.
+Print Assumptions C09_terms_of_tree_free_tokens_promise_nothing.
+
+(* the premises are satisfiable, inside the known class: x<a/:0,2>b/** with the repetition written out zero times *)
+Example C09_optional_repetition_nonvacuous :
+  let e := [120;60;97;47;58;48;44;50;62;98;47;42;42]%N in
+  exists t r x, build e = BuildOk t r /\ plain_reps t = true /\ has_optional_rep t = true /\ is_exhaustive t = Ok Always /\
+    Expands t x /\ chain_ok false x = true /\ zchain false x = true /\ last_opt x <> Some LSep.
+Proof.
+  cbv zeta. do 3 eexists. split; [vm_compute; reflexivity|]. split; [vm_compute; reflexivity|]. split; [vm_compute; reflexivity|]. split; [vm_compute; reflexivity|].
+  split.
+  - eapply (E_cat _ _ [_; _; _; _]). constructor; [|constructor; [|constructor; [|constructor; [|constructor]]]]; try apply E_leaf.
+    eapply (E_rep _ _ _ _ []); [split; vm_compute; discriminate|constructor].
+  - split; [vm_compute; reflexivity|]. split; [vm_compute; reflexivity|]. vm_compute. discriminate.
+Qed.
